@@ -23,6 +23,7 @@ import MudModel.Models
 import Mathlib.Analysis.SpecialFunctions.ExpDeriv
 import Mathlib.Analysis.SpecialFunctions.Trigonometric.DerivHyp
 import Mathlib.LinearAlgebra.Matrix.Symmetric
+import Mathlib.Analysis.SpecialFunctions.Trigonometric.Deriv
 import Mathlib.Tactic
 
 namespace Mud.C05
@@ -376,5 +377,120 @@ theorem harmonic_force_is_gradient (H0 : Matrix (Fin n) (Fin n) ℝ) (hsym : H0.
   have h := (h1.add h2).add_const (E0 + 1 / 2 * (dx ⬝ᵥ H0.mulVec dx))
   refine h.congr_deriv ?_
   simp
+
+section models2d
+open Mud.Models
+
+/-! ### Subotnik2D: `dV[0]` is ∂V/∂x and `dV[1]` is ∂V/∂y, entry by entry -/
+
+theorem sub2d_V11_dx (f b x : ℝ) : HasDerivAt (sub2dV11 f b) (sub2dD11x f b x) x := by
+  have h := tanTerm_deriv0 (-f) b x
+  have e : sub2dV11 f b = tanTerm (-f) b := by funext y; simp [sub2dV11, tanTerm]
+  rw [e]
+  refine h.congr_deriv ?_
+  simp [sub2dD11x, tanTermD]
+
+theorem sub2d_V12_dx (c d x : ℝ) : HasDerivAt (sub2dV12 c d) (sub2dD12x c d x) x := by
+  have h := gauss_deriv c d x
+  have e : (fun y => c * Real.exp (-d * y * y)) = sub2dV12 c d := by funext y; simp [sub2dV12]
+  rw [e] at h
+  refine h.congr_deriv ?_
+  simp [sub2dD12x]; ring
+
+theorem sub2d_Z_dx (b w g hp x y : ℝ) : HasDerivAt (fun t => sub2dZ b w g hp t y) b x := by
+  have h : HasDerivAt (fun t : ℝ => b * (t - 1)) b x := by
+    simpa using ((hasDerivAt_id' x).sub_const 1).const_mul b
+  simpa [sub2dZ] using h.add_const (w * Real.cos (g * y + hp))
+
+theorem sub2d_Z_dy (b w g hp x y : ℝ) : HasDerivAt (fun t => sub2dZ b w g hp x t) (-w * g * Real.sin (g * y + hp)) y := by
+  have h1 : HasDerivAt (fun t : ℝ => g * t + hp) g y := by
+    simpa using ((hasDerivAt_id' y).const_mul g).add_const hp
+  have h2 := ((Real.hasDerivAt_cos (g * y + hp)).comp y h1).const_mul w
+  have h3 := h2.const_add (b * (x - 1))
+  refine (h3.congr_deriv ?_)
+  ring
+
+theorem sub2d_V22_dx (a b w g hp x y : ℝ) :
+    HasDerivAt (fun t => sub2dV22 a b w g hp t y) (sub2dD22x a b w g hp x y) x := by
+  have hz := sub2d_Z_dx b w g hp x y
+  have h := (((hasDerivAt_tanh (sub2dZ b w g hp x y)).comp x hz).const_mul a).add_const (3 / 4 * a)
+  have e : (fun t => sub2dV22 a b w g hp t y) = fun t => a * (Real.tanh ∘ fun t => sub2dZ b w g hp t y) t + 3 / 4 * a := by
+    funext t; simp [sub2dV22]
+  rw [e]
+  refine h.congr_deriv ?_
+  simp [sub2dD22x]; ring
+
+theorem sub2d_V22_dy (a b w g hp x y : ℝ) :
+    HasDerivAt (fun t => sub2dV22 a b w g hp x t) (sub2dD22y a b w g hp x y) y := by
+  have hz := sub2d_Z_dy b w g hp x y
+  have h := (((hasDerivAt_tanh (sub2dZ b w g hp x y)).comp y hz).const_mul a).add_const (3 / 4 * a)
+  have e : (fun t => sub2dV22 a b w g hp x t) = fun t => a * (Real.tanh ∘ fun t => sub2dZ b w g hp x t) t + 3 / 4 * a := by
+    funext t; simp [sub2dV22]
+  rw [e]
+  refine h.congr_deriv ?_
+  simp [sub2dD22y]; ring
+
+/-! ### 5-D linear vibronic model: the five gradient components, entry by entry -/
+
+/-- derivative with respect to one tuning mode `X_i` (the other modes and θ fixed): `om_i X_i + k_i` -/
+theorem vib_diag_dmode (E : ℝ) (om k An : Fin 4 → ℝ) (X : Fin 4 → ℝ) (theta : ℝ) (i : Fin 4) :
+    HasDerivAt (fun t => vibDiag E om k An (Function.update X i t) theta) (vibDiagDmode om k X i) (X i) := by
+  have hsum : ∀ (F : Fin 4 → ℝ → ℝ) (F' : Fin 4 → ℝ), (∀ j, HasDerivAt (F j) (F' j) (X i)) →
+      HasDerivAt (fun t => ∑ j, F j t) (∑ j, F' j) (X i) := by
+    intro F F' h
+    exact HasDerivAt.fun_sum (u := Finset.univ) (fun j _ => h j)
+  simp only [vibDiag, vsum_eq_sum, lit_real]
+  have h1 : HasDerivAt (fun t => ∑ j, om j / ((2 : ℕ) : ℝ) * (Function.update X i t j * Function.update X i t j))
+      (∑ j, if j = i then om i * X i else 0) (X i) := by
+    apply hsum
+    intro j
+    by_cases hj : j = i
+    · subst hj
+      simp only [Function.update_self, if_true]
+      have := ((hasDerivAt_id' (X j)).mul (hasDerivAt_id' (X j))).const_mul (om j / ((2 : ℕ) : ℝ))
+      refine this.congr_deriv ?_
+      push_cast; ring
+    · simp only [Function.update_of_ne hj, hj, if_false]
+      exact hasDerivAt_const _ _
+  have h2 : HasDerivAt (fun t => ∑ j, k j * Function.update X i t j) (∑ j, if j = i then k i else 0) (X i) := by
+    apply hsum
+    intro j
+    by_cases hj : j = i
+    · subst hj
+      simp only [Function.update_self, if_true]
+      simpa using (hasDerivAt_id' (X j)).const_mul (k j)
+    · simp only [Function.update_of_ne hj, hj, if_false]
+      exact hasDerivAt_const _ _
+  have h := ((h1.const_add E).add h2).add_const
+    (∑ j : Fin 4, An j * (sin (((j.val + 1 : ℕ) : ℝ) * theta) * sin (((j.val + 1 : ℕ) : ℝ) * theta)))
+  refine h.congr_deriv ?_
+  simp [vibDiagDmode]
+
+/-- derivative with respect to the torsion: `Σ An_i 2(i+1) sin((i+1)θ) cos((i+1)θ)` -/
+theorem vib_diag_dtheta (E : ℝ) (om k An : Fin 4 → ℝ) (X : Fin 4 → ℝ) (theta : ℝ) :
+    HasDerivAt (fun t => vibDiag E om k An X t) (vibDiagDtheta An theta) theta := by
+  simp only [vibDiag, vibDiagDtheta, vsum_eq_sum, lit_real]
+  have hs : ∀ j : Fin 4, HasDerivAt (fun t : ℝ => An j * (Real.sin (((j.val + 1 : ℕ) : ℝ) * t) * Real.sin (((j.val + 1 : ℕ) : ℝ) * t)))
+      (An j * ((2 : ℕ) : ℝ) * ((j.val + 1 : ℕ) : ℝ) * (Real.sin (((j.val + 1 : ℕ) : ℝ) * theta) * Real.cos (((j.val + 1 : ℕ) : ℝ) * theta))) theta := by
+    intro j
+    have h1 : HasDerivAt (fun t : ℝ => ((j.val + 1 : ℕ) : ℝ) * t) ((j.val + 1 : ℕ) : ℝ) theta := by
+      simpa using (hasDerivAt_id' theta).const_mul (((j.val + 1 : ℕ) : ℝ))
+    have h2 := (Real.hasDerivAt_sin _).comp theta h1
+    have h3 := (h2.mul h2).const_mul (An j)
+    refine h3.congr_deriv ?_
+    simp only [Function.comp]
+    push_cast; ring
+  have hsum := HasDerivAt.fun_sum (u := Finset.univ) (fun j _ => hs j)
+  have h := hsum.const_add (E + (∑ i, om i / ((2 : ℕ) : ℝ) * (X i * X i)) + ∑ i, k i * X i)
+  exact h
+
+theorem vib_V12_dtheta (lamb r0 theta : ℝ) : HasDerivAt (vibV12 lamb r0) (vibD12theta lamb r0 theta) theta := by
+  have h := (Real.hasDerivAt_sin theta).const_mul (lamb * r0)
+  have e : vibV12 lamb r0 = fun y => lamb * r0 * Real.sin y := by funext y; simp [vibV12]
+  rw [e]
+  refine h.congr_deriv ?_
+  simp [vibD12theta]
+
+end models2d
 
 end Mud.C05
